@@ -213,9 +213,10 @@ def step (c : Cfg) (s : State) (t : Tid) : Option State :=
         match c.kind k with
         | .virt ds => some (setTop s t l k below (.deps ds []))
         | .raw => none
-    | .deps (d :: _) _ =>
-      some { s with th := upd s.th t { l with stack := ⟨d, .acq⟩ :: ⟨k, pc⟩ :: below } }
-    | .deps [] acc => some (setTop s t l k below (.setAcq (c.vf k acc)))
+    | .deps rem acc =>
+      match rem with
+      | d :: _ => some { s with th := upd s.th t { l with stack := ⟨d, .acq⟩ :: ⟨k, .deps rem acc⟩ :: below } }
+      | [] => some (setTop s t l k below (.setAcq (c.vf k acc)))
     | .setAcq v =>
       if canAcquire c s t then
         some { s with owner := some t, depth := s.depth + 1,
@@ -238,7 +239,7 @@ def step (c : Cfg) (s : State) (t : Tid) : Option State :=
       | ⟨k', .deps (_ :: r) acc⟩ :: more =>
         some { s with owner := releaseOwner s, depth := s.depth - 1,
                       th := upd s.th t { l with stack := ⟨k', .deps r (acc ++ [v])⟩ :: more } }
-      | _ => none
+      | _ :: _ => none
 
 def run (c : Cfg) : State → List Tid → Option State
   | s, [] => some s
